@@ -35,7 +35,9 @@ ASSUMPTIONS = [
 PF = gen.Profile(resolutions=[30, 60], min_tasks=1, max_tasks=5, max_res=2, depth=2, subslot=False, deps=0.4, weeks=(2, 3), max_slots=6, leaves=False)
 
 BAD_NAMES = ["Status: weekly", "what*ever", "../escaped", "sub/dir/rep", "/tmp/verif_c20_escape", "a|b", "ok name", "..", "trail/",
-             "sub/../../leak", "a/b/../../../../cwd/leak2", "x/../y", "./../z"]
+             "sub/../../leak", "a/b/../../../../cwd/leak2", "x/../y", "./../z",
+             # names that leave the output directory through directories which do not exist yet
+             "../plan_reports/weekly/tasks", "../../up2/deeper/rep", "{CWD}/export/2025/summary", "{TMP}/side/by/side", "new/../../fresh/dir/rep"]
 
 
 @st.composite
@@ -144,6 +146,10 @@ def eval_batch(case):
     r = Result(key=repr([(i["args"], i["desc"]) for i in case["invs"]]) + repr([(n, len(d)) for n, d, _ in case["inputs"]]))
     vs = []
     try:
+        def subst(b):  # report names may point at the sandbox itself
+            return b.replace(b"{CWD}", sb.cwd.encode()).replace(b"{TMP}", sb.tmp.encode()) if b is not None else None
+
+        case = dict(case, inputs=[(n, subst(d), x) for n, d, x in case["inputs"]], invs=[dict(i, stdin=subst(i["stdin"])) for i in case["invs"]])
         for name, data, _d in case["inputs"]:
             if "/" in name:
                 os.makedirs(os.path.join(sb.cwd, os.path.dirname(name)), exist_ok=True)
@@ -353,6 +359,57 @@ def eval_file_name(item):
     return r
 
 
+def failure_items(shard, nshards):
+    k = 0
+    for kind in ("stdin_nonutf8", "stdin_latin1_comment", "stdin_empty", "stdin_blank", "stdin_syntax", "stdin_truncated", "file_nonutf8", "file_empty",
+                 "file_syntax", "missing", "directory", "stdin_nul", "file_bom", "stdin_huge_line"):
+        for csvf in (False, True):
+            if k % nshards == shard:
+                yield (kind, csvf)
+            k += 1
+
+
+def eval_failure(item):
+    """Every failure path named in the statement, alone (traced) and three at a time."""
+    kind, csvf = item
+    good = (NAME_PROJECT % ("weekly", "json, csv")).encode()
+    data = {
+        "stdin_nonutf8": good[:40] + b"\xff\xfe\x80 " + good[40:],
+        "stdin_latin1_comment": b"# caf\xe9 plan\n" + good,
+        "stdin_empty": b"",
+        "stdin_blank": b"  \n\n",
+        "stdin_syntax": good.replace(b"{", b"{ ]] ", 1),
+        "stdin_truncated": good[: len(good) * 2 // 3],
+        "stdin_nul": good[:30] + b"\x00\x00" + good[30:],
+        "stdin_huge_line": b"# " + b"x" * 200000 + b"\n" + good,
+        "file_nonutf8": good[:40] + b"\xff\xfe\x80 " + good[40:],
+        "file_empty": b"",
+        "file_syntax": good.replace(b"{", b"{ ]] ", 1),
+        "file_bom": b"\xef\xbb\xbf" + good,
+    }.get(kind, good)
+    flags = ["--csv"] if csvf else []
+    if kind.startswith("stdin"):
+        inv = {"args": ["report"] + flags + ["-"], "stdin": data, "desc": kind}
+        inputs = [("p0.tjp", good, "valid")]
+    elif kind == "missing":
+        inv = {"args": ["report"] + flags + ["nosuch.tjp"], "stdin": None, "desc": kind}
+        inputs = [("p0.tjp", good, "valid")]
+    elif kind == "directory":
+        inv = {"args": ["report"] + flags + ["adir"], "stdin": None, "desc": kind, "mkdir": "adir"}
+        inputs = [("p0.tjp", good, "valid")]
+    else:
+        inv = {"args": ["report"] + flags + ["f.tjp"], "stdin": None, "desc": kind}
+        inputs = [("f.tjp", data, kind), ("p0.tjp", good, "valid")]
+    ok = {"args": ["report"] + flags + ["p0.tjp"], "stdin": None, "desc": "valid"}
+    case = {"inputs": inputs, "invs": [inv, ok, dict(inv), dict(inv)], "stagger": [0, 2, 0, 7]}
+    r = eval_batch(case)
+    r.key = f"failure path {kind} {csvf}"
+    r.nontrivial = True
+    r.nt_keys = []
+    r.sample = {"failure_path": kind, "csv": csvf}
+    return r
+
+
 class contextlib_suppress:
     def __enter__(self):
         return self
@@ -368,6 +425,8 @@ def campaigns(tier):
                  floor_nontrivial=0.2, describe="concurrent batches in one cwd/TMPDIR + traced solitary runs of every distinct invocation"),
         Campaign("file_names", "enum", evaluate=eval_file_name, items=file_items, exhaustive=True,
                  describe="a valid project in files with awkward names (not UTF-8, blanks, quotes, newline, sub-directory) x output format: traced solitary runs + a pair"),
+        Campaign("failure_paths", "enum", evaluate=eval_failure, items=failure_items, exhaustive=True,
+                 describe="every failure path (bad bytes on stdin / in a file, empty, blank, syntax error, truncated, missing, directory, NUL, BOM) x format: traced alone and three at a time next to a good run"),
         Campaign("report_names", "enum", evaluate=eval_name, items=name_items, exhaustive=True,
                  describe="every hostile / ordinary report name of a fixed list x formats x output format: traced solitary run + a file/stdin pair"),
     ]
